@@ -283,6 +283,13 @@ func (p pres) String() string {
 	if p.Class == "OkUint" {
 		return "OkUint(" + p.Z.String() + ")"
 	}
+	if p.Class == "TxRejected" || p.Class == "Fail" {
+		why := p.Str
+		if len(why) > 160 {
+			why = why[:160]
+		}
+		return p.Class + "(" + why + ")"
+	}
 	return p.Class
 }
 
@@ -328,10 +335,12 @@ type probeObs struct {
 	To    common.Address // the contract the probe is about
 	Probe probeKind
 	Res   pres
-	Via   int // 0 = the transaction calls To itself, 1 = through a forwarder using CALL, 2 = using STATICCALL
+	Via   int // 0 = the transaction calls To itself, 1 = through a forwarder using CALL, 2 = using STATICCALL,
+	// 3 / 4 = the message is a contract CREATION whose init code calls To with CALL / STATICCALL
+	Ver int // historic probes only: index of the step whose resulting state the call was evaluated on (-1 = initial state)
 }
 
-var viaNames = []string{"Direct", "ViaCall", "ViaStaticCall"}
+var viaNames = []string{"Direct", "ViaCall", "ViaStaticCall", "ViaInitCall", "ViaInitStaticCall"}
 
 func forwarderAddr(k int) common.Address {
 	return common.BigToAddress(new(big.Int).Add(new(big.Int).Lsh(big.NewInt(0xC17F), 144), big.NewInt(int64(k+1))))
@@ -370,6 +379,9 @@ type world struct {
 	nprobes  int
 	canon    strings.Builder
 	deployed int
+	// which step's resulting state each height committed during the case holds (-1 = the initial state)
+	verStep map[int64]int
+	curStep int
 }
 
 var denomPool = []string{"uatom", "ibc/27394FB092D2ECCD56123C74F36E4C1F926001CEADA9CA97EA622B25F41E5EB2", "factory/evm1xyz/sub", "uzero", "uosmo", "Token-1.x:y"}
@@ -378,7 +390,7 @@ var badDenoms = []string{"", "1x", "a b", "ab", " uatom", "uatom ", "u$d"}
 func (w *world) ctx() sdk.Context { return w.c.Ctx() }
 
 func newWorld(t *testing.T, c *Chain, r *Rng, side *Sidecar) *world {
-	w := &world{t: t, c: c, r: r, side: side, supply0: map[string]*big.Int{}}
+	w := &world{t: t, c: c, r: r, side: side, supply0: map[string]*big.Int{}, verStep: map[int64]int{}, curStep: -1}
 	for i := 0; i < 4; i++ {
 		w.pool = append(w.pool, c.NewFundedAccount(9100+i, new(big.Int).Mul(big.NewInt(1_000_000), Pow2(60))))
 	}
@@ -466,13 +478,43 @@ func (w *world) runTx(signer *itutiltypes.TestAccount, msg sdk.Msg, decode func(
 		return opResult{class: "err", info: "build: " + err.Error()}
 	}
 	txs := [][]byte{bz}
+	viaAround := 0
 	if around != nil {
 		n := w.c.Nonce(w.c.QueryCtx(), w.prob.GetEthAddress())
-		b1, _ := w.ethTx(n, *around, probeSel[prName])
-		b2, _ := w.ethTx(n+1, *around, probeSel[prName])
-		txs = [][]byte{b1, bz, b2}
+		mk := func(nonce uint64) []byte {
+			b, _ := w.ethTx(nonce, *around, probeSel[prName])
+			return b
+		}
+		if w.r.Chance(35) {
+			// the callers before and after are constructors of creation transactions
+			viaAround = 3 + w.r.Intn(2)
+			sp := w.specInit(*around, prName, viaAround)
+			mk = func(nonce uint64) []byte {
+				b, _ := w.ethTxTo(nonce, nil, sp.data)
+				return b
+			}
+		}
+		txs = [][]byte{mk(n), bz, mk(n + 1)}
 	}
-	res := w.c.RunBlock(txs)
+	// between FinalizeBlock and Commit the node's mempool / RPC side still works on the state BEFORE this block:
+	// calls in check, simulate and query mode to the address the step is about, evaluated there
+	var between func()
+	if focus := w.focusOf(around); w.r.Chance(50) {
+		w.commitBlock(nil) // earlier steps' direct writes are committed: the check state is exactly the state before
+		between = func() {
+			for _, ob := range w.staleModes(focus) {
+				// only the query (pinned to the last committed version) has a defined view here: FinalizeBlock has
+				// already written the block into the multistore's working set (BaseApp.workingHash), which the check
+				// state reads through for keys it has not cached: check / simulate see a mixture.  They are made
+				// nevertheless: they are readers on a state that is not the one consensus will use next.
+				if ob.Mode == 3 {
+					o.pre = append(o.pre, ob)
+				}
+				w.side.Count("between-finalize-and-commit:" + modeNames[ob.Mode] + ":" + ob.Res.Class)
+			}
+		}
+	}
+	res := w.finalizeThenCommit(txs, between)
 	require.Len(w.t, res.TxResults, len(txs))
 	tr := res.TxResults[0]
 	if around != nil {
@@ -486,14 +528,15 @@ func (w *world) runTx(signer *itutiltypes.TestAccount, msg sdk.Msg, decode func(
 				ret, vmErr := decodeEthResponse(w.t, w.c, er.Data)
 				p = classify(*around, probeSel[prName], ret, vmErr)
 			}
-			ob := probeObs{0, *around, prName, p, 0}
+			ob := probeObs{Mode: 0, To: *around, Probe: prName, Res: p, Via: viaAround}
 			if k == 0 {
 				o.pre = append(o.pre, ob)
+				w.side.Count("same-block-probe:" + viaNames[viaAround] + ":before:" + p.Class)
 			} else {
 				o.post = append(o.post, ob)
+				w.side.Count("same-block-probe:" + viaNames[viaAround] + ":after:" + p.Class)
 			}
 		}
-		w.side.Count("same-block-probe:" + o.pre[0].Res.Class + ">" + o.post[0].Res.Class)
 	}
 	if tr.Code == 0 {
 		var data sdk.TxMsgData
@@ -505,6 +548,226 @@ func (w *world) runTx(signer *itutiltypes.TestAccount, msg sdk.Msg, decode func(
 		return opResult{class: "panic", info: tr.Log}
 	}
 	return opResult{class: "err", info: tr.Log}
+}
+
+// focusOf: the address a step's side traffic asks about
+func (w *world) focusOf(around *common.Address) common.Address {
+	if around != nil {
+		return *around
+	}
+	return crypto.CreateAddress(cpctypes.CpcModuleAddress, cpcSeq(w.c.App, w.c.QueryCtx()))
+}
+
+// finalizeThenCommit is RunBlock with a window between FinalizeBlock and Commit (ABCI allows CheckTx and queries there)
+func (w *world) finalizeThenCommit(txs [][]byte, between func()) *abci.ResponseFinalizeBlock {
+	c := w.c
+	h := w.header()
+	res, err := c.App.BaseApp.FinalizeBlock(&abci.RequestFinalizeBlock{Height: h.Height, Txs: txs, Time: h.Time, ProposerAddress: h.ProposerAddress})
+	require.NoError(w.t, err)
+	if between != nil {
+		between()
+	}
+	_, err = c.App.BaseApp.Commit()
+	require.NoError(w.t, err)
+	w.verStep[h.Height] = w.curStep + 1 // the block contains the transaction of the step being executed
+	c.Height++
+	c.Time = c.Time.Add(c.Step)
+	return res
+}
+
+// staleModes: name() of a in check, simulate and query mode against whatever those modes currently see
+func (w *world) staleModes(a common.Address) []probeObs {
+	c := w.c
+	var out []probeObs
+	sp := w.specDirect(a, prName)
+	if w.r.Chance(30) {
+		sp = w.specInit(a, prName, 3+w.r.Intn(2))
+	}
+	nonce := c.Nonce(c.QueryCtx(), w.prob.GetEthAddress())
+	bz, msg := w.ethTxTo(nonce, sp.to, sp.data)
+	add := func(mode int, ret []byte, vmErr string, err error) {
+		if err != nil {
+			out = append(out, probeObs{Mode: mode, To: a, Probe: prName, Res: pres{Class: "TxRejected", Str: err.Error()}, Via: sp.via})
+			return
+		}
+		out = append(out, probeObs{Mode: mode, To: a, Probe: prName, Res: classify(a, probeSel[prName], ret, vmErr), Via: sp.via})
+	}
+	for _, mode := range [][]int{{1, 2, 3}, {3, 1, 2}, {2, 3, 1}, {1}, {3}}[w.r.Intn(5)] {
+		switch mode {
+		case 1:
+			ret, vmErr, err := w.checkModeCall(msg)
+			add(1, ret, vmErr, err)
+		case 2:
+			_, res, err := c.App.BaseApp.Simulate(bz)
+			if err != nil {
+				add(2, nil, "", err)
+			} else {
+				ret, vmErr := decodeEthResponse(w.t, c, res.Data)
+				add(2, ret, vmErr, nil)
+			}
+		case 3:
+			ret, vmErr, err := w.queryCallAt(sp.to, sp.data, 0)
+			add(3, ret, vmErr, err)
+		}
+	}
+	return out
+}
+
+// historicQuery: eth_call pinned to a height committed earlier in this case; the answer belongs to THAT state
+func (w *world) historicQuery(a common.Address, olderThan int) (probeObs, bool) {
+	var hs []int64
+	for h, st := range w.verStep {
+		if st < olderThan && h < w.c.Height {
+			hs = append(hs, h)
+		}
+	}
+	if len(hs) == 0 {
+		return probeObs{}, false
+	}
+	sort.Slice(hs, func(i, j int) bool { return hs[i] > hs[j] })
+	h := hs[0] // mostly the most recent older state
+	if w.r.Chance(30) {
+		h = hs[w.r.Intn(len(hs))]
+	}
+	pk := []probeKind{prName, prName, prSymbol, prBech32Prefix, prGarbage}[w.r.Intn(5)]
+	sp := w.specDirect(a, pk)
+	if w.r.Chance(25) {
+		sp = w.specInit(a, pk, 3+w.r.Intn(2))
+	}
+	ob := probeObs{Mode: 3, To: a, Probe: pk, Via: sp.via, Ver: w.verStep[h]}
+	ret, vmErr, err := w.queryCallAt(sp.to, sp.data, h)
+	if err != nil {
+		ob.Res = pres{Class: "TxRejected", Str: err.Error()}
+	} else {
+		ob.Res = classify(a, probeSel[pk], ret, vmErr)
+	}
+	return ob, true
+}
+
+// deliverProbe: one block with name() calls to the given addresses (deliver mode), against the state after the step
+func (w *world) deliverProbe(addrs []common.Address) []probeObs {
+	c := w.c
+	w.refreshPrice()
+	n := c.Nonce(c.QueryCtx(), w.prob.GetEthAddress())
+	var txs [][]byte
+	var specs []callSpec
+	for i, a := range addrs {
+		sp := w.specDirect(a, prName)
+		if w.r.Chance(25) {
+			sp = w.specInit(a, prName, 3+w.r.Intn(2))
+		}
+		bz, _ := w.ethTxTo(n+uint64(i), sp.to, sp.data)
+		txs = append(txs, bz)
+		specs = append(specs, sp)
+	}
+	res := w.commitBlock(txs)
+	require.Len(w.t, res.TxResults, len(txs))
+	var out []probeObs
+	for i, sp := range specs {
+		tr := res.TxResults[i]
+		ob := probeObs{Mode: 0, To: sp.target, Probe: prName, Via: sp.via}
+		if tr.Code != 0 {
+			ob.Res = pres{Class: "TxRejected", Str: tr.Log}
+		} else {
+			ret, vmErr := decodeEthResponse(w.t, c, tr.Data)
+			ob.Res = classify(sp.target, probeSel[prName], ret, vmErr)
+		}
+		out = append(out, ob)
+	}
+	return out
+}
+
+// ghostDeploy: a deployment that is only SIMULATED (gas estimation of a deploy transaction by a whitelisted key): it
+// runs the whole message on a branch that is thrown away.  Returns the address the contract would have got.
+func (w *world) ghostDeploy(cur *regState) (common.Address, bool) {
+	var key *itutiltypes.TestAccount
+	for _, x := range cur.Params.WhitelistedDeployers {
+		if k := w.keyOf(x); k != nil && k.GetCosmosAddress().String() == x {
+			key = k
+			break
+		}
+	}
+	if key == nil {
+		return common.Address{}, false
+	}
+	q := w.c.QueryCtx()
+	denom := ""
+	for _, d := range w.denoms {
+		if cur.idx(d) == nil && sdk.ValidateDenom(d) == nil && w.supplyOf(q, d).Sign() > 0 {
+			denom = d
+			break
+		}
+	}
+	if denom == "" {
+		return common.Address{}, false
+	}
+	w.refreshPrice()
+	msg := &cpctypes.MsgDeployErc20ContractRequest{Authority: key.GetCosmosAddress().String(), Name: "Ghost", Symbol: "GHO", Decimals: 6, MinDenom: denom}
+	bz, err := w.cosmosTx(key, msg)
+	if err != nil {
+		return common.Address{}, false
+	}
+	_, _, err = w.c.App.BaseApp.Simulate(bz)
+	if err != nil {
+		w.side.Count("traffic:simulated-deployment:refused")
+	} else {
+		w.side.Count("traffic:simulated-deployment:ok")
+	}
+	return crypto.CreateAddress(cpctypes.CpcModuleAddress, cur.Seq), err == nil
+}
+
+// traffic: what a node does between two consensus steps without any effect on consensus state: historic eth_calls,
+// simulated deployments; then (or before) a delivered call.  The model has no term for it: it is erasable
+// (Properties/C17.v C17_node_traffic_erasable); every observation is compared with the state it belongs to.
+func (w *world) traffic(o *stepOut, idx int) {
+	r := w.r
+	cur := &o.after
+	w.commitBlock(nil) // nothing pending: every mode sees a committed state
+	w.refreshPrice()
+	focus := crypto.CreateAddress(cpctypes.CpcModuleAddress, cur.Seq)
+	if cur.Seq > 0 && r.Chance(75) {
+		focus = crypto.CreateAddress(cpctypes.CpcModuleAddress, cur.Seq-1) // what the last attempt got or would have got
+	}
+	if o.res.class == "ok" && o.res.addr != nil {
+		focus = *o.res.addr
+	} else if len(cur.Metas) > 0 && r.Chance(30) {
+		focus = cur.Metas[r.Intn(len(cur.Metas))].Key
+	}
+	others := []common.Address{cpctypes.CpcBech32FixedAddress, cpctypes.CpcStakingFixedAddress, crypto.CreateAddress(cpctypes.CpcModuleAddress, cur.Seq)}
+	hist := func(olderThan int) {
+		if ob, ok := w.historicQuery(focus, olderThan); ok {
+			o.hist = append(o.hist, ob)
+			w.side.Count("traffic:historic-query:" + ob.Res.Class)
+		} else {
+			w.side.Count("traffic:historic-query:no-older-height")
+		}
+	}
+	switch x := r.Intn(100); {
+	case x < 40:
+		// a reader on an OLDER state right after the step, then the consensus call
+		hist(idx)
+		o.post = append(o.post, w.deliverProbe([]common.Address{focus, others[r.Intn(len(others))]})...)
+		w.side.Count("traffic:historic-then-deliver")
+	case x < 65:
+		// the consensus call first, then readers on older states (twice: the second finds whatever the first left)
+		o.post = append(o.post, w.deliverProbe([]common.Address{focus})...)
+		hist(idx + 1)
+		hist(idx)
+		w.side.Count("traffic:deliver-then-historic")
+	case x < 85:
+		if a, ok := w.ghostDeploy(cur); ok {
+			o.post = append(o.post, w.deliverProbe([]common.Address{a, focus})...)
+			w.side.Count("traffic:simulated-deployment-then-deliver")
+		}
+	default:
+		hist(idx)
+		for _, ob := range w.staleModes(focus) {
+			// between blocks check / simulate / query see the last committed state: the one after this step
+			ob.Ver = idx
+			o.hist = append(o.hist, ob)
+		}
+		w.side.Count("traffic:historic-then-modes")
+	}
 }
 
 // runHandler: the way governance (or authz, ICA) executes a message: router handler on a branch of the state,
@@ -724,6 +987,8 @@ type stepOut struct {
 	gen          *cpctypes.GenesisState
 	// calls in the same block as the step's transaction: before it (seen against the state before) and after it
 	pre, post []probeObs
+	// calls evaluated on an earlier committed state (probeObs.Ver says which)
+	hist []probeObs
 }
 
 func (w *world) extOkErc20(m *cpctypes.MsgDeployErc20ContractRequest) bool {
@@ -1143,12 +1408,39 @@ func (w *world) header() tmproto.Header {
 }
 
 func (w *world) ethTx(nonce uint64, to common.Address, data []byte) ([]byte, *evmtypes.MsgEthereumTx) {
+	return w.ethTxTo(nonce, &to, data)
+}
+
+// ethTxTo: to == nil makes a contract-creation transaction with data as init code
+func (w *world) ethTxTo(nonce uint64, to *common.Address, data []byte) ([]byte, *evmtypes.MsgEthereumTx) {
 	c := w.c
 	bz, msg, err := c.EthTxBytes(w.prob, &ethtypes.DynamicFeeTx{
-		ChainID: c.EvmChainID(), Nonce: nonce, GasTipCap: big.NewInt(0), GasFeeCap: w.price, Gas: 300_000, To: &to, Value: big.NewInt(0), Data: data,
+		ChainID: c.EvmChainID(), Nonce: nonce, GasTipCap: big.NewInt(0), GasFeeCap: w.price, Gas: 300_000, To: to, Value: big.NewInt(0), Data: data,
 	})
 	require.NoError(w.t, err)
 	return bz, msg
+}
+
+// callSpec: how a probe reaches its target
+type callSpec struct {
+	target common.Address  // the address the probe is about
+	to     *common.Address // recipient of the message (nil: contract creation)
+	data   []byte          // calldata / init code
+	pk     probeKind
+	via    int
+}
+
+func (w *world) specDirect(a common.Address, pk probeKind) callSpec {
+	return callSpec{target: a, to: &a, data: probeSel[pk], pk: pk, via: 0}
+}
+
+// specInit: a creation message whose init code makes the call (via 3 = CALL, 4 = STATICCALL)
+func (w *world) specInit(a common.Address, pk probeKind, via int) callSpec {
+	op := OpCALL
+	if via == 4 {
+		op = OpSTATICCALL
+	}
+	return callSpec{target: a, to: nil, data: BuildInitProbe(op, a, probeSel[pk]), pk: pk, via: via}
 }
 
 func decodeEthResponse(t *testing.T, c *Chain, data []byte) (ret []byte, vmErr string) {
@@ -1194,11 +1486,17 @@ func (w *world) checkModeCall(msgEth *evmtypes.MsgEthereumTx) (ret []byte, vmErr
 }
 
 func (w *world) queryCall(to common.Address, data []byte) (ret []byte, vmErr string, err error) {
+	return w.queryCallAt(&to, data, 0)
+}
+
+// queryCallAt: gRPC EthCall through BaseApp.Query; to == nil is a call without recipient (creation); height 0 = latest
+// committed state, otherwise the state committed at that height (what eth_call with a block number does)
+func (w *world) queryCallAt(to *common.Address, data []byte, height int64) (ret []byte, vmErr string, err error) {
 	c := w.c
 	from := w.prob.GetEthAddress()
 	gas := hexutil.Uint64(300_000)
 	input := hexutil.Bytes(data)
-	args, err := json.Marshal(evmtypes.TransactionArgs{From: &from, To: &to, Gas: &gas, Input: &input})
+	args, err := json.Marshal(evmtypes.TransactionArgs{From: &from, To: to, Gas: &gas, Input: &input})
 	if err != nil {
 		return nil, "", err
 	}
@@ -1207,7 +1505,7 @@ func (w *world) queryCall(to common.Address, data []byte) (ret []byte, vmErr str
 	if err != nil {
 		return nil, "", err
 	}
-	res, err := c.App.BaseApp.Query(context.Background(), &abci.RequestQuery{Path: "/ethermint.evm.v1.Query/EthCall", Data: bz})
+	res, err := c.App.BaseApp.Query(context.Background(), &abci.RequestQuery{Path: "/ethermint.evm.v1.Query/EthCall", Data: bz, Height: height})
 	if err != nil {
 		return nil, "", err
 	}
@@ -1256,20 +1554,15 @@ func (w *world) candidates(cur *regState) []common.Address {
 }
 
 // probeAll commits, then calls every candidate with every probe in the four modes; four of the candidates (one of
-// each class when there is one) are also called by a forwarding contract with CALL / STATICCALL
+// each class when there is one) are also called by a forwarding contract with CALL / STATICCALL, and by the init code
+// of a contract-creation message (creation transaction / eth_call without recipient) with CALL / STATICCALL
 func (w *world) probeAll(cur *regState) []probeObs {
 	c := w.c
 	cands := w.candidates(cur)
-	type call struct {
-		target common.Address
-		to     common.Address
-		pk     probeKind
-		via    int
-	}
-	var calls []call
+	var calls []callSpec
 	for _, a := range cands {
 		for pk := prName; pk <= prGarbage; pk++ {
-			calls = append(calls, call{a, a, pk, 0})
+			calls = append(calls, w.specDirect(a, pk))
 		}
 	}
 	var nested []common.Address
@@ -1299,54 +1592,61 @@ func (w *world) probeAll(cur *regState) []probeObs {
 		}
 		at := w.placeForwarder(k, op, a)
 		for pk := prName; pk <= prGarbage; pk++ {
-			calls = append(calls, call{a, at, pk, via})
+			calls = append(calls, callSpec{target: a, to: &at, data: probeSel[pk], pk: pk, via: via})
+		}
+		// the caller is the constructor of a top-level creation message
+		ivia := 3 + (k+w.r.Intn(2))%2
+		for pk := prName; pk <= prGarbage; pk++ {
+			calls = append(calls, w.specInit(a, pk, ivia))
 		}
 	}
-	c.RunBlock(nil) // direct writes become the committed state: check state and query state are now this state
+	w.commitBlock(nil) // direct writes become the committed state: check state and query state are now this state
 	w.refreshPrice()
 	var out []probeObs
 	base := c.Nonce(c.QueryCtx(), w.prob.GetEthAddress())
-	rejected := func(mode int, cl call, why string) {
-		out = append(out, probeObs{mode, cl.target, cl.pk, pres{Class: "TxRejected", Str: why}, cl.via})
+	rejected := func(mode int, cl callSpec, why string) {
+		out = append(out, probeObs{Mode: mode, To: cl.target, Probe: cl.pk, Res: pres{Class: "TxRejected", Str: why}, Via: cl.via})
+	}
+	seen := func(mode int, cl callSpec, ret []byte, vmErr string) {
+		out = append(out, probeObs{Mode: mode, To: cl.target, Probe: cl.pk, Res: classify(cl.target, probeSel[cl.pk], ret, vmErr), Via: cl.via})
 	}
 	// Simulate + Query + Check replay: all against the committed state, nothing persists
 	for _, cl := range calls {
-		in := probeSel[cl.pk]
-		bzSim, msgSim := w.ethTx(base, cl.to, in)
+		bzSim, msgSim := w.ethTxTo(base, cl.to, cl.data)
 		_, res, err := c.App.BaseApp.Simulate(bzSim)
 		if err != nil {
 			rejected(2, cl, err.Error())
 		} else {
 			ret, vmErr := decodeEthResponse(w.t, c, res.Data)
-			out = append(out, probeObs{2, cl.target, cl.pk, classify(cl.target, in, ret, vmErr), cl.via})
+			seen(2, cl, ret, vmErr)
 		}
-		ret, vmErr, err := w.queryCall(cl.to, in)
+		ret, vmErr, err := w.queryCallAt(cl.to, cl.data, 0)
 		if err != nil {
 			rejected(3, cl, err.Error())
 		} else {
-			out = append(out, probeObs{3, cl.target, cl.pk, classify(cl.target, in, ret, vmErr), cl.via})
+			seen(3, cl, ret, vmErr)
 		}
 		ret, vmErr, err = w.checkModeCall(msgSim)
 		if err != nil {
 			rejected(1, cl, err.Error())
 		} else {
-			out = append(out, probeObs{1, cl.target, cl.pk, classify(cl.target, in, ret, vmErr), cl.via})
+			seen(1, cl, ret, vmErr)
 		}
 	}
 	// CheckTx through ABCI, then the same transactions in one block
 	var txs [][]byte
 	for i, cl := range calls {
-		bz, _ := w.ethTx(base+uint64(i), cl.to, probeSel[cl.pk])
+		bz, _ := w.ethTxTo(base+uint64(i), cl.to, cl.data)
 		cr, err := c.CheckTx(bz, false)
 		require.NoError(w.t, err)
 		if cr.Code != 0 {
 			w.side.Count("checktx:rejected")
-			w.t.Fatalf("CheckTx rejected a probe transaction to %s: %s", cl.to.Hex(), cr.Log)
+			w.t.Fatalf("CheckTx rejected a probe transaction about %s (%s): %s", cl.target.Hex(), viaNames[cl.via], cr.Log)
 		}
 		w.side.Count("checktx:accepted")
 		txs = append(txs, bz)
 	}
-	res := c.RunBlock(txs)
+	res := w.commitBlock(txs)
 	require.Len(w.t, res.TxResults, len(calls))
 	for i, cl := range calls {
 		tr := res.TxResults[i]
@@ -1355,10 +1655,18 @@ func (w *world) probeAll(cur *regState) []probeObs {
 			continue
 		}
 		ret, vmErr := decodeEthResponse(w.t, c, tr.Data)
-		out = append(out, probeObs{0, cl.target, cl.pk, classify(cl.target, probeSel[cl.pk], ret, vmErr), cl.via})
+		seen(0, cl, ret, vmErr)
 	}
 	w.nprobes += len(out)
 	return out
+}
+
+// commitBlock = RunBlock + a note of which step's state the committed height holds (for the historic queries)
+func (w *world) commitBlock(txs [][]byte) *abci.ResponseFinalizeBlock {
+	h := w.c.Height
+	res := w.c.RunBlock(txs)
+	w.verStep[h] = w.curStep
+	return res
 }
 
 // ------------------------------------------------------------------ the oracle (property text, no model)
@@ -1709,7 +2017,7 @@ func (w *world) snapshot0() {
 }
 
 func newWorldShell(t *testing.T, c *Chain, r *Rng, side *Sidecar) *world {
-	w := &world{t: t, c: c, r: r, side: side, supply0: map[string]*big.Int{}}
+	w := &world{t: t, c: c, r: r, side: side, supply0: map[string]*big.Int{}, verStep: map[int64]int{}, curStep: -1}
 	for i := 0; i < 4; i++ {
 		w.pool = append(w.pool, c.NewKeyAccount(9100+i))
 	}
@@ -1731,6 +2039,8 @@ func runCase(t *testing.T, cases *CasesFile, side *Sidecar, i int, kind string, 
 		}
 	}
 	probes := map[int][]probeObs{}
+	w.curStep = len(steps) - 1
+	w.commitBlock(nil) // the state the generated steps start from is a committed version (historic queries can name it)
 	// a few denominations get supply so that deployments by message do succeed
 	var forced []string
 	for _, d := range denomPool[:3] {
@@ -1757,6 +2067,13 @@ func runCase(t *testing.T, cases *CasesFile, side *Sidecar, i int, kind string, 
 		steps = append(steps, o)
 		cur = o.after
 		idx := len(steps) - 1
+		w.curStep = idx
+		if r.Chance(55) {
+			w.traffic(&steps[idx], idx)
+			if after := readReg(t, c.App, c.QueryCtx()); after.digest() != cur.digest() {
+				t.Fatalf("non-consensus traffic changed the registry: %s -> %s", cur.digest(), after.digest())
+			}
+		}
 		if probeAt[idx] {
 			probes[idx] = w.probeAll(&cur)
 			after := readReg(t, c.App, c.QueryCtx())
@@ -1825,18 +2142,29 @@ func emitCase(t *testing.T, cases *CasesFile, side *Sidecar, i int, kind string,
 					side.Count("probe-target:" + cls)
 				}
 				pterms = append(pterms, fmt.Sprintf("(%s, %s, %s, %s, %s)", modeNames[p.Mode], viaNames[p.Via], cz(addrZ(p.To)), probeNames[p.Probe], p.Res.coq()))
-				if p.Mode == 0 && p.Probe == prName && p.Via != 0 {
-					side.Count("probe-nested:" + viaNames[p.Via] + ":" + cls)
+				if p.Probe == prName && p.Via != 0 {
+					side.Count("probe-nested:" + modeNames[p.Mode] + ":" + viaNames[p.Via] + ":" + cls)
 				}
 			}
 			desc.Probes += len(ps)
 		}
+		var oldTerms []string
+		for _, p := range o.hist {
+			st := &init
+			if p.Ver >= 0 {
+				st = &steps[p.Ver].after
+			}
+			w.oracleProbes(st, []probeObs{p}, where)
+			side.Count(fmt.Sprintf("probe-on-older-state:%s:%s", modeNames[p.Mode], p.Res.Class))
+			oldTerms = append(oldTerms, fmt.Sprintf("(%s, (%s, %s, %s, %s, %s))", CqNat(p.Ver+1), modeNames[p.Mode], viaNames[p.Via], cz(addrZ(p.To)), probeNames[p.Probe], p.Res.coq()))
+		}
+		desc.Probes += len(o.hist)
 		var preTerms []string
 		for _, p := range o.pre {
 			preTerms = append(preTerms, fmt.Sprintf("(%s, %s, %s, %s, %s)", modeNames[p.Mode], viaNames[p.Via], cz(addrZ(p.To)), probeNames[p.Probe], p.Res.coq()))
 		}
-		stepTerms = append(stepTerms, fmt.Sprintf("{| r_kind := %s; r_res := %s; r_metas := %s; r_didx := %s; r_seq := %s; r_prm := %s; r_probes := %s; r_pre := %s |}",
-			o.kind, o.res.coq(), o.after.metasCoq(), o.after.didxCoq(), CqZu(o.after.Seq), paramsCoq(o.after.Params), CqList(pterms), CqList(preTerms)))
+		stepTerms = append(stepTerms, fmt.Sprintf("{| r_kind := %s; r_res := %s; r_metas := %s; r_didx := %s; r_seq := %s; r_prm := %s; r_probes := %s; r_pre := %s; r_old := %s |}",
+			o.kind, o.res.coq(), o.after.metasCoq(), o.after.didxCoq(), CqZu(o.after.Seq), paramsCoq(o.after.Params), CqList(pterms), CqList(preTerms), CqList(oldTerms)))
 	}
 	if w.api {
 		side.Count("case-class:with-unrestricted-keeper-calls")
